@@ -983,6 +983,8 @@ impl Model {
                 Some((_, Node::Link { target, .. })) => vec![same(Pat::Is(Out::Path(target.clone())))],
                 _ => vec![same(Pat::AnyErr)],
             },
+            // handles that live across steps: when their bytes become visible is C07's subject
+            HOpen(..) | HWrite(..) | HFlush(..) | HDrop(..) => vec![unspec()],
         }
     }
 
